@@ -189,9 +189,11 @@ func (w *vfWorld) violate(prop, oracle, key, format string, args ...interface{})
 		return
 	}
 	w.logf("VIOLATE", "%s %s", id, detail)
+	w.mu.Lock()
 	if w.viol == nil {
 		w.viol = &vfViolation{Prop: prop, Oracle: oracle, Key: key, Detail: detail}
 	}
+	w.mu.Unlock()
 	panic(vfStop{})
 }
 
